@@ -579,6 +579,14 @@ def repo_build_is_current():
 def _prune_builds(keep=None):
     """remove cached scratch builds of other source states that nobody is using (older than 10 minutes or unused)"""
     import glob
+    # lock / user-count files left behind by removed builds (older than an hour: nobody is about to use them)
+    for f in glob.glob(os.path.join(SCRATCH_ROOT, "bioscrape-verif-build-*.lock")) + glob.glob(os.path.join(SCRATCH_ROOT, "bioscrape-verif-build-*.users")):
+        d_ = f.rsplit(".", 1)[0]
+        try:
+            if d_ != keep and not os.path.isdir(d_) and time.time() - os.path.getmtime(f) > 3600:
+                os.remove(f)
+        except OSError:
+            pass
     for d in glob.glob(os.path.join(SCRATCH_ROOT, "bioscrape-verif-build-*")):
         if not os.path.isdir(d) or d == keep:
             continue
